@@ -37,13 +37,41 @@ Definition num_gt a b := rel OGt (num_cmp a b).
 Definition num_eq a b := rel OEq (num_cmp a b).
 
 (* ================= calibrators ================= *)
-(* PolynomialCalibrator.calibrate: sum(a * (x ** n) for a, n in coefficients), starting from int 0 *)
-Fixpoint poly_sum (acc : num) (terms : list (num * Z)) (x : num) : res num :=
-  match terms with
-  | [] => Ok acc
-  | (a, n) :: t => p <- num_pow x n ;; m <- num_mul a p ;; s <- num_add acc m ;; poly_sum s t x
+(* the built-in sum() of CPython >= 3.12 over numbers, start = int 0:
+   exact while everything is an int; from the first float on, Neumaier compensated summation of the
+   float items (ints that fit a C long are added uncompensated), the compensation being added at the end *)
+Definition f_abs (a : Z) : Z := Z.land a 9223372036854775807.
+Definition f_abs_ge (a b : Z) : bool := match fcmp (f_abs a) (f_abs b) with Some Lt | None => false | _ => true end.
+Definition fits_long (v : Z) : bool := (- 9223372036854775808 <=? v) && (v <=? 9223372036854775807).
+Definition add_comp (f c : Z) : Z := if negb (f_is_zero c) && f_is_finite c then fadd f c else f.
+Fixpoint sum_generic (acc : num) (items : list num) : res num :=
+  match items with [] => Ok acc | x :: t => s <- num_bin Z.add fadd acc x ;; sum_generic s t end.
+Fixpoint sum_float (f c : Z) (items : list num) : res num :=
+  match items with
+  | [] => Ok (NFloat (add_comp f c))
+  | NFloat x :: t =>
+      let s := fadd f x in
+      let c' := if f_abs_ge f x then fadd c (fadd (fsub f s) x) else fadd c (fadd (fsub x s) f) in
+      sum_float s c' t
+  | NInt v :: t =>
+      if fits_long v then d <- of_Z v ;; sum_float (fadd f d) c t
+      else s <- num_bin Z.add fadd (NFloat (add_comp f c)) (NInt v) ;; sum_generic s t
   end.
-Definition poly (terms : list (num * Z)) (x : num) : res num := poly_sum (NInt 0) terms x.
+Fixpoint sum_int (acc : Z) (items : list num) : res num :=
+  match items with
+  | [] => Ok (NInt acc)
+  | NInt v :: t => sum_int (acc + v) t
+  | NFloat x :: t => a <- of_Z acc ;; sum_float (fadd a x) 0 t
+  end.
+Definition py_sum (items : list num) : res num := sum_int 0 items.
+
+(* PolynomialCalibrator.calibrate: sum(a * (x ** n) for a, n in coefficients) *)
+Fixpoint poly_items (terms : list (num * Z)) (x : num) : res (list num) :=
+  match terms with
+  | [] => Ok []
+  | (a, n) :: t => p <- num_pow x n ;; m <- num_mul a p ;; r <- poly_items t x ;; Ok (m :: r)
+  end.
+Definition poly (terms : list (num * Z)) (x : num) : res num := items <- poly_items terms x ;; py_sum items.
 
 (* sorted(points, key=raw): stable insertion sort *)
 Fixpoint insert_pt (p : num * num) (l : list (num * num)) : list (num * num) :=
@@ -134,7 +162,7 @@ Definition float_param (cal : num) (raw : num) : res pval :=
 Definition parse_numeric (e : numeric_enc) (env : env) (c : cursor) : res (pval * cursor) :=
   '(raw, c') <- raw_numeric e c ;;
   chosen <- match ne_context e with
-            | Some (_ :: _ as cs) => pick_context env (payload_of_num raw) cs
+            | Some ((_ :: _) as cs) => pick_context env (payload_of_num raw) cs
             | _ => Ok None
             end ;;
   match chosen with
